@@ -30,9 +30,12 @@ spec fn initial_meta_ok(m: Meta, slot: int, ps: int) -> bool {
     &&& m.root.root_page == 3 && m.root.next_int == 0 && m.num_pages == 4 && m.freelist_page == 2
     &&& m.hash == fnv1a(meta_bytes(m))
 }
+spec fn hdr_page_ok(b: Seq<u8>, i: int, ps: int) -> bool {
+    page_view(b, i, ps).id == i && page_view(b, i, ps).page_type == 3 && initial_meta_ok(meta_view(b, i, ps), i, ps)
+}
 spec fn initial_image(b: Seq<u8>, ps: int) -> bool {
     &&& b.len() == 4 * ps
-    &&& forall|i: int| 0 <= i < 2 ==> page_view(b, i, ps).id == i && page_view(b, i, ps).page_type == 3 && initial_meta_ok(#[trigger] meta_view(b, i, ps), i, ps)
+    &&& forall|i: int| 0 <= i < 2 ==> #[trigger] hdr_page_ok(b, i, ps)
     &&& page_view(b, 2, ps).id == 2 && page_view(b, 2, ps).page_type == 4 && page_view(b, 2, ps).count == 0 && page_view(b, 2, ps).overflow == 0
     &&& page_view(b, 3, ps).id == 3 && page_view(b, 3, ps).page_type == 2 && page_view(b, 3, ps).count == 0 && page_view(b, 3, ps).overflow == 0
 }
@@ -40,3 +43,8 @@ spec fn zero_page(b: Seq<u8>, j: int, ps: int) -> bool {
     page_view(b, j, ps).id == 0 && page_view(b, j, ps).page_type == 0 && page_view(b, j, ps).count == 0 && page_view(b, j, ps).overflow == 0
         && meta_view(b, j, ps).tx_id == 0 && meta_view(b, j, ps).root.next_int == 0
 }
+// rule D8: a documented panic never returns
+#[verifier::external_body]
+fn documented_panic()
+    ensures false,
+{ unimplemented!() }
